@@ -175,9 +175,14 @@ def run_driver(driver: str, lines: Sequence[str], timeout: int = 1200) -> list[s
     if not lines:
         return []
     text = "\n".join(lines) + "\n"
-    with lean_lock():
-        pass  # wait for any build in flight; drivers themselves only read .olean files
+    # Drivers import Model/*.lean only; those are rebuilt only when their source changes, so no
+    # lock is taken here (a concurrent build of another property's Gen/Props cannot disturb them).
+    # One retry covers the rare case of a Model olean being rewritten at this very moment.
     r = _run(["lake", "env", "lean", "--run", f"drivers/{driver}.lean"], LEAN, timeout, stdin=text)
+    if r.returncode != 0:
+        time.sleep(5)
+        with lean_lock():
+            r = _run(["lake", "env", "lean", "--run", f"drivers/{driver}.lean"], LEAN, timeout, stdin=text)
     if r.returncode != 0:
         raise RuntimeError(f"driver {driver} failed: {r.stderr[-2000:]}\n{r.stdout[-2000:]}")
     out = r.stdout.splitlines()
